@@ -25,7 +25,13 @@ RULE = ("operations: one SRP exchange each — telegram.VerifSRP (client randomn
         "secrets giving 1-2 leading zero bytes in A, B, u, S; wrong passwords; srp_B in {0, p, p+1, p-1, 1, B+p, "
         "247/248/255/257/300 bytes}; empty password; foreign algorithm object; c18.seq = several exchanges one after "
         "the other in one process, each judged on its own: a base (password, salt1, salt2) followed by the triples "
-        "with the same concatenated bytes and the boundaries moved. distinct = distinct operation "
+        "with the same concatenated bytes and the boundaries moved. Caller memory: the byte-string inputs of every "
+        "exchange (salt1, salt2, p, srp_B, random) are placed, as a function of the operation line, in own exactly-sized "
+        "arrays / own arrays with spare capacity / ONE backing array in a pseudo-random order, adjacent or with gaps, "
+        "and all of that memory must be unchanged after the call; the public wrapper gets an AccountPassword whose "
+        "other fields (has_recovery, has_secure_values, has_password, hint, email_unconfirmed_pattern, new_algo, "
+        "new_secure_algo, secure_random) are populated as a function of the operation line for 3 of 4 c18.pub lines. "
+        "distinct = distinct operation "
         "lines; each is compared with the Lean client model (A and M1 byte for byte) and with the Lean "
         "specification server's verdict, and judged by the Go server")
 
